@@ -188,6 +188,10 @@ pub struct Pool {
     pub names: Vec<usize>,    // element / attribute names
     pub pi_names: Vec<usize>, // no-namespace names for PI targets
     pub attr_names: Vec<usize>,
+    /// twenty-four more prefixes, namespaces and no-namespace attribute names, drawn only by the large shapes of [gen_big]
+    pub extra_prefixes: Vec<usize>,
+    pub extra_uris: Vec<usize>,
+    pub extra_attrs: Vec<usize>,
 }
 
 pub fn make_pool(xot: &mut Xot, reg: &mut Reg, ns_names: bool) -> Pool {
@@ -219,7 +223,13 @@ pub fn make_pool(xot: &mut Xot, reg: &mut Reg, ns_names: bool) -> Pool {
             attr_names.push(reg.name(xot, l, uris[2]));
         }
     }
-    Pool { uris, prefixes, names, pi_names, attr_names }
+    let (mut extra_prefixes, mut extra_uris, mut extra_attrs) = (vec![], vec![], vec![]);
+    for i in 0..24 {
+        extra_prefixes.push(reg.prefix(xot, &format!("x{}", i)));
+        extra_uris.push(reg.ns(xot, &format!("urn:x{}", i)));
+        extra_attrs.push(reg.name(xot, &format!("k{}", i), 0));
+    }
+    Pool { uris, prefixes, names, pi_names, attr_names, extra_prefixes, extra_uris, extra_attrs }
 }
 
 pub fn gen_text(r: &mut Rng, cfg: &GenCfg) -> String {
@@ -236,6 +246,11 @@ pub fn gen_text(r: &mut Rng, cfg: &GenCfg) -> String {
 }
 
 pub fn gen_tree(r: &mut Rng, cfg: &GenCfg, pool: &Pool) -> ANode {
+    // one tree in sixteen is LARGE in one dimension (depth, width, attributes and declarations per element, prefixes in scope,
+    // length of a text or attribute value): inline buffers, depth caps and batch sizes of 8 … 64 are then exceeded
+    if r.chance(1, 16) {
+        return gen_big(r, cfg, pool);
+    }
     let mut budget = 2 + r.below(cfg.max_nodes);
     if r.chance(cfg.doc_root, 100) {
         let fragment = r.chance(cfg.fragment, 100);
@@ -340,6 +355,91 @@ fn gen_elem(r: &mut Rng, cfg: &GenCfg, pool: &Pool, depth: usize, budget: &mut u
         gen_children(r, cfg, pool, depth, fan, budget, &mut kids, false);
     }
     ANode::Elem { name, ns, attrs, kids }
+}
+
+
+/// a tree that is large in one dimension; respects the switches of [cfg] (declarations, attributes, adjacent / empty text,
+/// xml:space, names in namespaces), always a document around one element when cfg.doc_root > 0, else the element
+pub fn gen_big(r: &mut Rng, cfg: &GenCfg, pool: &Pool) -> ANode {
+    let plain = |i: usize| pool.names[(i * 4) % pool.names.len().max(1)];   // a no-namespace element name (every fourth when ns_names)
+    let name_at = |r: &mut Rng, i: usize| if cfg.ns_names && cfg.decls { *r.pick(&pool.names) } else { plain(i) };
+    let long_text = |r: &mut Rng, n: usize| -> String {
+        let alphabet: &[char] = if cfg.special_text { &['a', '&', '<', '>', '"', '\'', '\r', '\n', '\t', ']', '\u{e9}', 'b'] } else { &['h', 'i', 'j', ' '] };
+        let mut s: String = (0..n).map(|_| *r.pick(alphabet)).collect();
+        if cfg.special_text && r.chance(1, 2) { let at = s.char_indices().nth(n / 2).map(|x| x.0).unwrap_or(0); s.insert_str(at, "\r\n"); }
+        if s.trim().is_empty() { s.push('t'); }
+        s
+    };
+    let el = match r.below(5) {
+        0 => {
+            // deep: 18 … 30 levels; text (and white space, when the configuration draws it) at every level; xml:space here and there;
+            // with declarations on, every level declares another prefix and one of the outermost levels re-declares an inner one
+            let depth = 18 + r.below(13);
+            let mut n = ANode::Elem { name: plain(0), ns: vec![], attrs: vec![], kids: vec![ANode::Text("x".into())] };
+            for i in 0..depth {
+                let mut ns = vec![];
+                let mut attrs = vec![];
+                if cfg.decls {
+                    ns.push((pool.extra_prefixes[i % 24], pool.extra_uris[i % 24]));
+                    if i + 3 >= depth && r.chance(1, 2) { ns.push((pool.extra_prefixes[r.below(12)], pool.extra_uris[12 + r.below(12)])); }
+                    if ns.len() == 2 && ns[0].0 == ns[1].0 { ns.pop(); }
+                }
+                if cfg.xml_space > 0 && r.chance(1, 5) { attrs.push((0, r.pick(&["preserve", "default"]).to_string())); }
+                let mut kids = vec![];
+                if cfg.ws_text > 0 && r.chance(1, 2) { kids.push(ANode::Text(" \n".into())); } else if r.chance(1, 3) { kids.push(ANode::Text("l".into())); }
+                kids.push(n);
+                if cfg.ws_text > 0 && r.chance(1, 2) { kids.push(ANode::Text("\n ".into())); } else if r.chance(1, 3) { kids.push(ANode::Text("r".into())); }
+                if r.chance(1, 6) { kids.push(ANode::Elem { name: plain(i), ns: vec![], attrs: vec![], kids: vec![] }); }
+                n = ANode::Elem { name: name_at(r, i), ns, attrs, kids };
+            }
+            n
+        }
+        1 => {
+            // wide: 20 … 48 children; elements with a child of their own, text, comments, processing instructions
+            let width = 20 + r.below(29);
+            let mut kids: Vec<ANode> = vec![];
+            for i in 0..width {
+                let prev_text = matches!(kids.last(), Some(ANode::Text(_)));
+                kids.push(match r.below(4) {
+                    0 if !prev_text || cfg.adjacent_text => ANode::Text(format!("t{}", i)),
+                    1 => ANode::Elem { name: name_at(r, i), ns: vec![], attrs: vec![], kids: vec![ANode::Elem { name: plain(i), ns: vec![], attrs: vec![], kids: vec![] }, ANode::Text("x".into())] },
+                    2 => ANode::Comment(format!("c{}", i)),
+                    _ => ANode::Elem { name: plain(i), ns: vec![], attrs: vec![], kids: vec![] },
+                });
+            }
+            ANode::Elem { name: plain(0), ns: vec![], attrs: if cfg.attrs { vec![(pool.attr_names[0], "v".into())] } else { vec![] }, kids }
+        }
+        2 => {
+            // many attributes and declarations on one element (13 … 24 of each), and on its child
+            let n_attr = if cfg.attrs { 13 + r.below(12) } else { 0 };
+            let n_ns = if cfg.decls { 13 + r.below(12) } else { 0 };
+            let attrs: Vec<(usize, String)> = (0..n_attr).map(|i| (pool.extra_attrs[i], format!("v{}", i))).collect();
+            let ns: Vec<(usize, usize)> = (0..n_ns).map(|i| (pool.extra_prefixes[i], pool.extra_uris[(i * 7) % 24])).collect();
+            let inner = ANode::Elem { name: name_at(r, 1), ns: if cfg.decls { vec![(pool.extra_prefixes[r.below(12)], pool.extra_uris[3])] } else { vec![] },
+                                      attrs: attrs.iter().rev().cloned().collect(), kids: vec![ANode::Text("x".into())] };
+            ANode::Elem { name: name_at(r, 0), ns, attrs, kids: vec![inner, ANode::Elem { name: plain(2), ns: vec![], attrs: vec![], kids: vec![] }] }
+        }
+        3 => {
+            // long character data: a text of 40 … 200 characters and an attribute value of 40 … 120, escapable characters included
+            let (nt, na) = (40 + r.below(161), 40 + r.below(81));
+            let t = long_text(r, nt);
+            let a = long_text(r, na);
+            ANode::Elem { name: plain(0), ns: vec![], attrs: if cfg.attrs { vec![(pool.attr_names[0], a)] } else { vec![] },
+                          kids: vec![ANode::Text(t), ANode::Elem { name: plain(1), ns: vec![], attrs: vec![], kids: vec![] }, ANode::Text(long_text(r, 30))] }
+        }
+        _ => {
+            // many text descendants: 17 … 40 pieces of text separated by empty elements and comments, on two levels
+            let n = 17 + r.below(24);
+            let mut kids: Vec<ANode> = vec![];
+            for i in 0..n {
+                kids.push(ANode::Text(format!("p{} ", i)));
+                kids.push(if i % 5 == 4 { ANode::Elem { name: plain(i), ns: vec![], attrs: vec![], kids: vec![ANode::Text(format!("q{}", i))] } }
+                          else if i % 2 == 0 { ANode::Elem { name: plain(i), ns: vec![], attrs: vec![], kids: vec![] } } else { ANode::Comment("s".into()) });
+            }
+            ANode::Elem { name: plain(0), ns: vec![], attrs: vec![], kids }
+        }
+    };
+    if cfg.doc_root > 0 { ANode::Doc(vec![el]) } else { el }
 }
 
 /// a deep chain and a wide fan, for the shapes random drawing rarely produces
